@@ -21,6 +21,8 @@ pub struct SessWorker {
     pub importer: SimImporter,
     prelude: Option<Sess>,
     light: Option<Sess>,
+    /// independently built (from scratch) base contexts, by (slot, light): see `scratch_base`
+    scratch: BTreeMap<(usize, bool), Sess>,
     pub real_modules_prelude: Vec<String>,
     pub real_modules_light: Vec<String>,
 }
@@ -51,6 +53,7 @@ impl SessWorker {
             importer: SimImporter::new(),
             prelude: None,
             light: None,
+            scratch: BTreeMap::new(),
             real_modules_prelude: vec![],
             real_modules_light: vec![],
         }
@@ -118,6 +121,21 @@ impl SessWorker {
             return Err(format!("could not build base context: {}", o.full_text()));
         }
         Ok(s)
+    }
+
+    /// A copy of the `slot`-th independently built base context of this worker. Contexts of
+    /// different slots share nothing (each was built with `Context::new` + load), so a session
+    /// under test (slot 0) and its references (slots 1, 2) cannot be coupled by state that
+    /// `Context::clone` might share. Copies of one slot are taken by many runs; that is sound
+    /// because every run uses names of its own (per-run name tag). Building from scratch for
+    /// every run instead makes a thorough batch leak tens of gigabytes: the resolver leaks the
+    /// source text of every module it loads (`Box::leak`).
+    pub fn scratch_base(&mut self, slot: usize, light: bool) -> Result<Sess, String> {
+        if !self.scratch.contains_key(&(slot, light)) {
+            let s = self.fresh_base(light)?;
+            self.scratch.insert((slot, light), s);
+        }
+        Ok(self.scratch[&(slot, light)].clone())
     }
 
     pub fn real_modules(&mut self, light: bool) -> Vec<String> {
